@@ -993,7 +993,7 @@ func mentionsEvents(x ast.Expr) bool {
 		if c, ok := n.(*ast.CallExpr); ok {
 			if id, ok := c.Fun.(*ast.Ident); ok {
 				switch id.Name {
-				case "called", "ncalls", "ret", "arg", "sent", "closed", "sentval", "recvd", "recvval":
+				case "called", "ncalls", "ret", "arg", "sent", "closed", "sentval", "recvd", "recvval", "spawned":
 					found = true
 				}
 			}
